@@ -163,6 +163,12 @@ def check_C13(c):
     sl = dict(MinRank=3, MaxRank=3 if q else 4, MaxDim=2, MaxDimHi=3, FullRank=0, Depth=1, WithT=False, Ctors={S("C")}, MaxStep=2)
     cases = c.tlc("MC_slice", "slice-calc-hi", sl, ["TypeOK", "Emit"])
     c.replay("slice-calc-hi", cases, dtypes="int16", pals="ident", extra=["-calc"])
+    # (e) Level 2: the transcription of the code's stride arithmetic (spec/AP.tla) and of the flat iterator's stepping
+    #     (spec/FlatIter.tla) refines Level 1 (TLC invariants Refines, RejectsAlike, WindowHolds, DeviationIsReal, IterRefines); its behaviours are replayed like any other and the transcribed strides
+    #     are compared with Strides() of the real tensors (counted, not a verdict)
+    ap = dict(MinRank=1, MaxRank=3, MaxDim=3, MaxDimHi=2, FullRank=2, MaxStep=2, Ctors={S("C"), S("F")}, Depth=1 if q else 2, WithT=True)
+    cases = c.tlc("MC_ap", "ap-refine", ap, ["TypeOK", "Refines", "RejectsAlike", "WindowHolds", "DeviationIsReal", "IterRefines", "Emit"])
+    c.replay("ap-refine", cases, dtypes="float64,int8,string" if q else "sizes", pals="ident", rotate=1 if q else 0)
     # (d) repetition and concatenation: the argument spaces of C10 against Shape.Repeat / Shape.Concat
     for name, k in assemble_jobs(q):
         if name.startswith("asm-stack"):
@@ -175,7 +181,12 @@ def check_C13(c):
                   "AND the shape-only calculator (Shape.S, AP.T, Shape.Repeat, Shape.Concat) and demands the same shape and the same "
                   "failure; after Reshape the flat element sequence in the tensor's own order and the caller's backing must be unchanged. "
                   "The metadata invariant (size = product of shape; strides address distinct in-bounds positions) is evaluated on every "
-                  "tensor observed by every check")
+                  "tensor observed by every check. (e) Level 2: spec/AP.tla transcribes CalcStrides/CalcStridesColMajor/CheckSlice/"
+                  "SliceDetails/AP.S/AP.T/Dense.Slice and spec/FlatIter.tla the flat iterator; MC_ap runs them in lock step with the "
+                  "Level-1 machine over New;[T];Slice;[T];[Slice] and TLC checks that they address exactly the Level-1 cells, reject "
+                  "alike, stay inside the view's window and iterate in the Level-1 order - except under the NAMED deviation "
+                  "lead-axis-floor (KF-C02-1), which TLC shows to be real; the transcribed strides are compared with Strides() of the "
+                  "real tensors (level2_strides_agree / _differ in the evidence; informational)")
     c.rep.assumptions = ["a no-op error of the calculator counts as success (the operation swallows it)"]
 
 
